@@ -856,3 +856,64 @@ Theorem C13_generated_emulator_is_model : forall inp sys en ms revs, EmuAllStage
 Proof. exact EmuGenFull.generated_all. Qed.
 Print Assumptions C13_generated_emulator_is_model.
 (* ==== end of block (EmuGenInv, EmuGenFull) ==== *)
+
+(* ==== breakdown trace (PvBreakdownDefs, PvBreakdownProofs, PvBreakdownValues) ==== *)
+(* The third Paraver trace of `ovniemu -b` (nosv/breakdown.c, nanos6/breakdown.c): PvBreakdownDefs.bd_emulate = the sort module of
+   C20 (SortDefs.sm_init / sm_run: rows = sorted per-CPU breakdown values) feeding the writer of PvDefs - one row per physical
+   CPU registered with PRV_<MODEL>_BREAKDOWN and PRV_SKIPDUP | PRV_ZERO, per event the clock advances and every output row whose
+   value changed is written, at the end the PCF type with the labels of the subsystem channel, of the idle channel and of the task
+   types, and the row names "~CPU %4d".  Its files are compared byte for byte with those of ovniemu -b on every accepted
+   breakdown trace of the check.
+   C13_breakdown_files_well_formed: whenever the model writes the three files (for a configuration whose labels have no newline:
+   C13_breakdown_configs_ok for the two models), read back from their BYTES: the PRV header carries the time of the last step
+   and the number of physical CPUs, and every record is on a row 1..n at a time within the duration; the ROW file names
+   exactly n rows, "~CPU n" down to "~CPU 1"; the PCF declares the breakdown type and labels under it every value of the three
+   label groups - every value a breakdown row can show other than 0 (C20_rows: the rows are the per-CPU values, C20_wiring: a
+   per-CPU value is a subsystem, an idle state or a task type). *)
+From OV Require Emu.PvBreakdownDefs Proofs.PvBreakdownProofs Proofs.PvPrvProofs.
+Theorem C13_breakdown_files_well_formed : forall c n tv steps f,
+  PvBreakdownProofs.cfg_ok c -> PvProofs.labels_clean tv -> PvBreakdownDefs.bd_emulate c n tv steps = Ok f ->
+  let d := PvBreakdownProofs.bd_end 0 steps in 0 <= d < 10 ^ 20 ->
+  PvPrvProofs.prv_shape (f_prv f) d n /\
+  parse_prf (f_row f) = Some (map (PvBreakdownDefs.bd_row_name n) (seq 0 n)) /\
+  length (map (PvBreakdownDefs.bd_row_name n) (seq 0 n)) = n /\
+  text_declares (f_pcf f) (PvBreakdownDefs.bd_type c) /\
+  (forall x, In x (PvBreakdownDefs.bd_ss c) \/ In x (PvBreakdownDefs.bd_idle c) \/ In x tv ->
+     text_labels (f_pcf f) (PvBreakdownDefs.bd_type c) (int (fst x))).
+Proof. exact PvBreakdownProofs.breakdown_files_well_formed. Qed.
+Print Assumptions C13_breakdown_files_well_formed.
+
+Theorem C13_breakdown_configs_ok :
+  PvBreakdownProofs.cfg_ok PvBreakdownDefs.bd_nosv /\ PvBreakdownProofs.cfg_ok PvBreakdownDefs.bd_nanos6 /\
+  PvBreakdownDefs.bd_ss PvBreakdownDefs.bd_nosv <> nil /\ PvBreakdownDefs.bd_idle PvBreakdownDefs.bd_nosv <> nil /\
+  PvBreakdownDefs.bd_ss PvBreakdownDefs.bd_nanos6 <> nil /\ PvBreakdownDefs.bd_idle PvBreakdownDefs.bd_nanos6 <> nil.
+Proof. exact PvBreakdownProofs.configs_ok. Qed.
+Print Assumptions C13_breakdown_configs_ok.
+
+Example C13_ex_breakdown_files : exists f,
+  PvBreakdownDefs.bd_emulate PvBreakdownDefs.bd_nosv 2 nil PvBreakdownProofs.bd_ex_steps = Ok f /\
+  f_row f = prf_text (PvBreakdownDefs.bd_row_name 2 0 :: PvBreakdownDefs.bd_row_name 2 1 :: nil) /\
+  f_prv f = prv_header 9 2 ++ prv_line 1 0 17 0 ++ prv_line 2 0 17 2 ++ prv_line 1 5 17 2 ++ prv_line 2 5 17 100.
+Proof. exact PvBreakdownProofs.bd_ex_ok. Qed.
+(* the VALUES: every record of the breakdown PRV carries the breakdown type and a value that is 0 or one a sort input (a per-CPU
+   breakdown value) took in some step (the sort module only moves its inputs around: SortProofs.minv); hence, when the per-CPU
+   values are subsystem / idle / task-type values of the configuration (what C20_wiring gives for the real inputs), every value
+   of the file other than 0 has its label in the PCF of the same trace *)
+From OV Require Proofs.PvBreakdownValues.
+Theorem C13_breakdown_record_values : forall c n tv steps f,
+  PvBreakdownDefs.bd_emulate c n tv steps = Ok f -> let d := PvBreakdownProofs.bd_end 0 steps in 0 <= d < 10 ^ 20 ->
+  exists recs, f_prv f = prv_header d (Z.of_nat n) ++ concat (map PvPrvProofs.recline recs) /\
+    Forall (PvBreakdownValues.rec_tv (PvBreakdownDefs.bd_type c) (fun z => z = 0 \/ In z (PvBreakdownValues.all_vals steps))) recs.
+Proof. exact PvBreakdownValues.breakdown_record_values. Qed.
+Print Assumptions C13_breakdown_record_values.
+
+Theorem C13_breakdown_values_labelled : forall c n tv steps f,
+  PvBreakdownProofs.cfg_ok c -> PvProofs.labels_clean tv -> PvBreakdownDefs.bd_emulate c n tv steps = Ok f ->
+  let d := PvBreakdownProofs.bd_end 0 steps in 0 <= d < 10 ^ 20 ->
+  (forall z, In z (PvBreakdownValues.all_vals steps) ->
+     z = 0 \/ exists x, (In x (PvBreakdownDefs.bd_ss c) \/ In x (PvBreakdownDefs.bd_idle c) \/ In x tv) /\ int (fst x) = z) ->
+  exists recs, f_prv f = prv_header d (Z.of_nat n) ++ concat (map PvPrvProofs.recline recs) /\
+    Forall (PvBreakdownValues.rec_tv (PvBreakdownDefs.bd_type c) (fun z => z = 0 \/ text_labels (f_pcf f) (PvBreakdownDefs.bd_type c) z)) recs.
+Proof. exact PvBreakdownValues.breakdown_values_labelled. Qed.
+Print Assumptions C13_breakdown_values_labelled.
+(* ==== end of block (PvBreakdownDefs, PvBreakdownProofs, PvBreakdownValues) ==== *)
